@@ -19,7 +19,7 @@ from pyvc.engine import Out
 from pyvc.values import *
 from .common import CONN_FIELDS, PACKET_CLASSES, PACKET_INLINE, PACKET_TRUTHY, ROLE_STUBS
 from .c06_handlers import (HSpec, finish, total, ki_cut0, ki_cut, ki_setup, KI_CASES, KI_INLINE, PARAMS as KI_PARAMS,
-                           is_set, pkt, pkt_wf, nk_switched, CLASSES as H_CLASSES)
+                           is_set, pkt, pkt_wf, nk_switched, first_check_region, CLASSES as H_CLASSES)
 
 __all__ = []
 
@@ -128,14 +128,6 @@ kexinit_answer = finish(HSpec(
     raises={'ProtocolError': lambda c: z3.BoolVal(not c.calls('_send_kexinit'))}))
 kexinit_answer.tag = 'record'
 kexinit_answer.no_replay = True
-
-
-def first_check_region(fn):
-    """the statements before the parsing block starts (first assignment): the `exchange already running` check"""
-    for i, st_ in enumerate(fn.body):
-        if isinstance(st_, ast.Assign):
-            return fn.body[:i]
-    raise Unsupported('_process_kexinit: no parsing block')
 
 
 kexinit_second = finish(HSpec(
